@@ -142,6 +142,53 @@ fn inst_lookup(eg: &EGraph<Main>, p: &Pattern<Main>, s: &Subst) -> Option<Applie
 
 const PSLOTS: [u32; 6] = [42, 46, 50, 54, 58, 62]; // n10.. used as pattern slot names
 
+
+/// canonical rendering of a list of matches: modulo the names of fresh slots (numbered by first appearance per match, variables
+/// in name order) and modulo the symmetries of the bound classes (the smallest rendering over the orbit) — the same procedure
+/// as `canonMatches` in the Lean driver
+pub fn canon_matches(eg: &EGraph<Main>, pslots: &[u32], substs: &[Subst]) -> String {
+    let mut strs: Vec<String> = Vec::new();
+    for s in substs {
+        let mut vars: Vec<&String> = s.keys().collect();
+        vars.sort();
+        let mut num: Vec<u32> = Vec::new();
+        let mut parts: Vec<String> = Vec::new();
+        for v in vars {
+            let a = &s[v];
+            let perms = eg.verif_group_perms(a.id);
+            let cands: Vec<SlotMap> = if perms.is_empty() { vec![a.m.clone()] } else { perms.iter().map(|p| p.compose_partial(&a.m)).collect() };
+            let mut best: Option<(String, Vec<u32>)> = None;
+            for m in cands {
+                let mut n2 = num.clone();
+                let mut ps: Vec<String> = Vec::new();
+                for (k, val) in m.iter() {
+                    let vc = code(val);
+                    if pslots.contains(&vc) {
+                        ps.push(format!("{}>p{}", code(k), vc));
+                    } else if let Some(i) = n2.iter().position(|x| *x == vc) {
+                        ps.push(format!("{}>F{}", code(k), i));
+                    } else {
+                        ps.push(format!("{}>F{}", code(k), n2.len()));
+                        n2.push(vc);
+                    }
+                }
+                let txt = ps.join("|");
+                match &best {
+                    Some((b, _)) if !(txt < *b) => {}
+                    _ => best = Some((txt, n2)),
+                }
+            }
+            let (txt, n2) = best.unwrap();
+            num = n2;
+            parts.push(format!("{}=@{}[{}]", v, a.id.0, txt));
+        }
+        strs.push(parts.join("&"));
+    }
+    strs.sort();
+    strs.dedup();
+    format!("{}:{}", strs.len(), strs.join("/"))
+}
+
 pub fn exec_mat(ops: Vec<Op>, seed: u64) -> Case {
     let sig = enc_sig(&Main::sig());
     let desc = enc_ops(&ops);
@@ -205,6 +252,13 @@ pub fn exec_mat(ops: Vec<Op>, seed: u64) -> Case {
                     continue;
                 }
             };
+            // the whole match list against the Lean model of the matcher
+            if substs.len() <= 60 {
+                let mut psl = Vec::new();
+                pat_slots(&p, &mut psl);
+                qs.push(format!("ematch {}", enc_apat(&p)));
+                outs.push(canon_matches(&eg, &psl, &substs));
+            }
             let pvars: Vec<String> = vars.iter().map(|(v, _)| v.clone()).collect();
             for s in substs.iter().take(12) {
                 nmatches += 1;
@@ -488,6 +542,20 @@ pub fn exec_plant(seed: u64) -> Vec<Case> {
         if matches!(p0, APat::PVar(_)) {
             return None;
         }
+        // a third of the plants: the term bound to one variable is wrapped as `(add u 0)` and the simplifier `(add ?z 0) => ?z`
+        // runs *before* the planted rule in the same round; `u` gets extra parents, so the wrapped class is the one that is
+        // merged away — the planted match (found before any rule was applied) then names a class that no longer leads
+        let mut companion: Option<ATerm> = None;
+        let mut t0 = t0;
+        if !vars.is_empty() && rng.chance(1, 3) {
+            let i = rng.below(vars.len());
+            let u = vars[i].1.clone();
+            let zero = ATerm { v: 15, fields: vec![CField::Lit("0".into())], children: vec![] };
+            let u2 = ATerm { v: 4, fields: vec![CField::App, CField::App], children: vec![u.clone(), zero] };
+            vars[i].1 = u2;
+            t0 = inst_term(&p0, &vars, &|c| c);
+            companion = Some(u);
+        }
         let mut sl = Vec::new();
         pat_slots(&p0, &mut sl);
         let mut img: Vec<u32> = PSLOTS.to_vec();
@@ -533,8 +601,13 @@ pub fn exec_plant(seed: u64) -> Vec<Case> {
         } else {
             eg.add_expr(to_recexpr::<Main>(&t0));
         }
+        if let Some(u) = &companion {
+            // extra parents of `u`: its class is the bigger one when `(add u 0)` is united with it
+            eg.add_expr(to_recexpr::<Main>(&ATerm { v: 13, fields: vec![CField::App], children: vec![u.clone()] }));
+            eg.add_expr(to_recexpr::<Main>(&ATerm { v: 14, fields: vec![CField::App, CField::App], children: vec![u.clone(), u.clone()] }));
+        }
         // optionally a symmetric child class
-        if rng.chance(1, 4) {
+        if companion.is_none() && rng.chance(1, 4) {
             if let Some(u) = subs.iter().find(|u| free_slots(u).len() >= 2 && u.children.is_empty()) {
                 let fs = free_slots(u);
                 let (x, y) = (fs[0], fs[1]);
@@ -562,7 +635,13 @@ pub fn exec_plant(seed: u64) -> Vec<Case> {
         let q_before = format!("match {} {}", enc_apat(&lhs), enc_subst(&sigma));
         // 4. the rule, applied once
         let rule: Rewrite<Main> = Rewrite::new("plant", &apat_to_text(&lhs), &apat_to_text(&rhs));
-        if let Err(e) = guarded(|| apply_rewrites(&mut eg, &[rule])) {
+        let rules: Vec<Rewrite<Main>> = if companion.is_some() {
+            tags.push("t:companion-rule-first".into());
+            vec![Rewrite::new("add-zero", "(add ?z 0)", "?z"), rule]
+        } else {
+            vec![rule]
+        };
+        if let Err(e) = guarded(|| apply_rewrites(&mut eg, &rules)) {
             tags.push("viol:apply-rewrites-panics".into());
             tags.push(format!("panic:{}", e.replace(',', " ")));
         }
